@@ -319,11 +319,12 @@ impl Task {
         crate::verif::clock_bump();
         #[cfg(acts_verif)]
         crate::verif::log(format!(
-            "T {} {} {} {}",
+            "T {} {} {} {} {}",
             self.pid,
             self.id,
             self.state(),
-            state
+            state,
+            utils::time::time_millis()
         ));
         if state.is_completed() {
             self.set_end_time(utils::time::time_millis());
